@@ -218,6 +218,15 @@ ENV_NAMES = [
     {"slashes": 0, "comps": ["a", "..", "..", "@sib", "inbox"]},
     {"slashes": 0, "comps": ["..", "..", "other", "Mail", "inbox"]},
     {"slashes": 0, "comps": ["..", "..", "elsewhere", "evil"]},
+    # white space around the dots: an ordinary component name, unless somebody strips it after checking
+    {"slashes": 0, "comps": [" ..", "@sib", "inbox"]},
+    {"slashes": 0, "comps": [" ..", "..", "other", "Mail", "inbox"]},
+    {"slashes": 0, "comps": ["..\t", "@sib", "inbox"]},
+    {"slashes": 0, "comps": [" ", "..", "..", "@sib", "inbox"]},
+    # `..` that is not at the front
+    {"slashes": 0, "comps": ["a", "..", "..", "planted"]},
+    {"slashes": 0, "comps": ["tmp", "x", "..", "..", "..", "planted"]},
+    {"slashes": 0, "comps": ["a", ".", "..", "..", "@sib", "inbox"]},
 ]
 
 SLOTS = ["SELECT", "EXAMINE", "CREATE", "DELETE", "RENAMESRC", "RENAMEDST", "SUBSCRIBE", "UNSUBSCRIBE",
